@@ -239,7 +239,10 @@ namespace bluetoe {
 
             void yes_no_response( bool response ) override
             {
-                assert( this->state() == details::sm_pairing_state::user_response_wait );
+                // an answer to a question nobody waits for any more (pairing failed or was restarted in the
+                // meantime) must not revive the pairing
+                if ( this->state() != details::sm_pairing_state::user_response_wait )
+                    return;
 
                 this->state( response
                     ? details::sm_pairing_state::user_response_success
@@ -379,7 +382,10 @@ namespace bluetoe {
 
             void yes_no_response( bool response ) override
             {
-                assert( this->state() == details::sm_pairing_state::user_response_wait );
+                // an answer to a question nobody waits for any more (pairing failed or was restarted in the
+                // meantime) must not revive the pairing
+                if ( this->state() != details::sm_pairing_state::user_response_wait )
+                    return;
 
                 this->state( response
                     ? details::sm_pairing_state::user_response_success
